@@ -11,6 +11,10 @@
 //	             ClientHello offers the session id the first connection announced and the script
 //	             resumes with the master secret it derived itself — also when the first handshake
 //	             was refused (a real client never offers the session of a failed handshake)   (D)
+//	             with suite2= decl=cli|srv cli2= (phase decl): the second ClientHello offers the
+//	             session id but NOT the session's suite (decl=cli), or the second server no longer
+//	             supports it (decl=srv) — the resumption must be declined — and ANOTHER script
+//	             (cli2) is played on the full handshake that follows on the same connection      (E)
 //
 // The case line carries the scenario (the tokens needed to re-execute it) followed by the
 // client's *behaviour as seen on the wire* (which handshake messages it sent, how many
@@ -18,11 +22,15 @@
 // under the server's ClientCAs / Time for three acceptable-usage sets — the inputs of the Lean
 // model and spec. The observation is what the real server reported.
 //
-//	case:  stack= kind= suite= pol= [pol2= cfg2=] cli=  K.e= K.msg= K.n= K.parse= K.c0= K.c1=
-//	       K.kx= K.cv= K.fin= [K.sig=]  (K = 1, 2)   [2.offer= now0= now1=]
+//	case:  stack= kind= suite= pol= [pol2= cfg2= [suite2= decl= cli2=]] cli=  K.e= K.msg= K.n= K.parse=
+//	       K.c0= K.c1= K.leaf= K.kx= K.cv= K.fin= [K.sig=]  (K = 1, 2)   [2.offer= 2.mech= now0= now1=]
+//	       K.leaf: the first certificate THIS client put on the wire, named by its bytes (fp; "-": none);
+//	       2.mech: the session's suite is still offered by the second ClientHello (sniffed) and
+//	       supported by the second server Config
 //	       c0 / c1: the verdicts of certificate 0 / 1 EACH ON ITS OWN (okClient okClientOrServer
 //	       okAnyUsage) and the kind of its public key (s SM2, p other curve, r RSA, x other)
-//	obs :  K.srv=done|err K.resumed= K.peers= K.chains= K.req= K.cls= K.alert= K.cli=
+//	obs :  K.srv=done|err K.resumed= K.peers= K.chains= K.pleaf= K.vleaf= K.req= K.cls= K.alert= K.cli=
+//	       K.pleaf / K.vleaf: ConnectionState().PeerCertificates[0] / VerifiedChains[0][0], named the same way
 package main
 
 import (
@@ -352,6 +360,12 @@ func (ci *connInfo) tokens(k string) string {
 	w("parse", parse)
 	w("c0", ct[0])
 	w("c1", ct[1])
+	// which certificate heads the list THIS client presented (named by its bytes on the wire)
+	if len(ci.ders) > 0 {
+		w("leaf", fp(ci.ders[0]))
+	} else {
+		w("leaf", "-")
+	}
 	w("kx", b01(ci.cf.has(16)))
 	cv := ci.cf.get(15)
 	if cv == nil {
@@ -410,6 +424,63 @@ func checkCV(ci *connInfo) bool {
 	return sm2.VerifyASN1WithSM2(pub, nil, h.Sum(nil), sig)
 }
 
+// fp names a certificate by its BYTES, stably across runs (the catalogue's keys are generated per
+// process, so a hash of the DER would differ from run to run): the first DER seen under a
+// "<subject CN>@<issuer CN>" label keeps it, a different DER with the same names gets a numbered
+// one (none in the catalogue); bytes that do not parse are named by their hash.
+var (
+	fpMu     sync.Mutex
+	fpByDER  = map[string]string{}
+	fpLabels = map[string]int{}
+)
+
+func fp(der []byte) string {
+	h := sm3.Sum(der)
+	key := string(h[:])
+	fpMu.Lock()
+	defer fpMu.Unlock()
+	if l, ok := fpByDER[key]; ok {
+		return l
+	}
+	label := "raw-" + hx.Hex(h[:4])
+	if c, err := smx509.ParseCertificate(der); err == nil {
+		clean := func(s string) string {
+			if s == "" {
+				return "?"
+			}
+			return strings.Map(func(r rune) rune {
+				if r == ' ' || r == '=' || r == '\t' || r == '\n' {
+					return '_'
+				}
+				return r
+			}, s)
+		}
+		label = clean(c.Subject.CommonName) + "@" + clean(c.Issuer.CommonName)
+	}
+	fpLabels[label]++
+	if n := fpLabels[label]; n > 1 {
+		label = fmt.Sprintf("%s#%d", label, n)
+	}
+	fpByDER[key] = label
+	return label
+}
+
+// leafOf / chainLeafOf: the names (fp) of PeerCertificates[0] and VerifiedChains[0][0] of a server's
+// ConnectionState ("-": the list is empty)
+func leafOf(peers []*smx509.Certificate) string {
+	if len(peers) == 0 || peers[0] == nil {
+		return "-"
+	}
+	return fp(peers[0].Raw)
+}
+
+func chainLeafOf(chains [][]*smx509.Certificate) string {
+	if len(chains) == 0 || len(chains[0]) == 0 || chains[0][0] == nil {
+		return "-"
+	}
+	return fp(chains[0][0].Raw)
+}
+
 // classify the server's error text
 func errClass(err error) string {
 	if err == nil {
@@ -456,6 +527,7 @@ type connObs struct {
 	err           error
 	resumed       bool
 	peers, chains int
+	pleaf, vleaf  string // names (fp) of PeerCertificates[0] / VerifiedChains[0][0] ("-": none)
 	req           string // "-": the server never sent a full-handshake flight
 	alert         string
 	cliErr        error
@@ -476,10 +548,14 @@ func (o connObs) tokens(k string) string {
 		w("resumed", b01(o.resumed))
 		w("peers", fmt.Sprint(o.peers))
 		w("chains", b01(o.chains > 0))
+		w("pleaf", o.pleaf)
+		w("vleaf", o.vleaf)
 	} else {
 		w("resumed", "-")
 		w("peers", "-")
 		w("chains", "-")
+		w("pleaf", "-")
+		w("vleaf", "-")
 	}
 	w("req", o.req)
 	w("cls", errClass(o.err))
@@ -519,6 +595,16 @@ func alertTok(f flight) string {
 
 type scen struct {
 	stack, kind, suite, pol, pol2, cfg2, cli string
+	// scripted histories whose second connection differs from the first (phase decl): the suite the
+	// second connection negotiates, why the offered session cannot be resumed (decl=cli: the second
+	// ClientHello no longer offers the session's suite; decl=srv: the second server Config no longer
+	// supports it) and the script the second client plays on the full handshake that follows
+	suite2, decl, cli2 string
+	offer              []string // not part of the description: the suites of this connection's ClientHello
+}
+
+func mkScen(stack, kind, suite, pol, pol2, cfg2, cli string) scen {
+	return scen{stack: stack, kind: kind, suite: suite, pol: pol, pol2: pol2, cfg2: cfg2, cli: cli}
 }
 
 func (s scen) desc() string {
@@ -526,7 +612,91 @@ func (s scen) desc() string {
 	if s.kind == "hist" || s.kind == "shist" {
 		d += fmt.Sprintf(" pol2=%s cfg2=%s", s.pol2, s.cfg2)
 	}
+	if s.decl != "" {
+		d += fmt.Sprintf(" suite2=%s decl=%s cli2=%s", s.suite2, s.decl, s.cli2)
+	}
 	return d + " cli=" + s.cli
+}
+
+// the suites a scripted client's ClientHello offers
+func (s scen) offered() []uint16 {
+	if len(s.offer) == 0 {
+		return []uint16{suiteID(s.suite)}
+	}
+	var out []uint16
+	for _, x := range s.offer {
+		out = append(out, suiteID(x))
+	}
+	return out
+}
+
+// second returns the scenario of the second connection of a scripted history and the suites of
+// the second server Config.
+func (s scen) second() (scen, []uint16) {
+	if s.decl == "" {
+		return s, []uint16{suiteID(s.suite)}
+	}
+	s2 := s
+	s2.suite, s2.cli = s.suite2, s.cli2
+	switch s.decl {
+	case "srv": // the client still offers the session's suite, the server no longer supports it
+		s2.offer = []string{s.suite, s.suite2}
+		return s2, []uint16{suiteID(s.suite2)}
+	default: // "cli": the server still supports the session's suite, the client no longer offers it
+		s2.offer = []string{s.suite2}
+		return s2, []uint16{suiteID(s.suite2), suiteID(s.suite)}
+	}
+}
+
+// mechTok: the checks of a resumption that have nothing to do with client authentication hold —
+// the second ClientHello (sniffed) still offers the suite of the first connection and the second
+// server Config (scenario) still supports it.
+func mechTok(ci2 *connInfo, sessionSuite string, srv2 []uint16) string {
+	want := suiteID(sessionSuite)
+	off, sup := false, false
+	for _, x := range helloSuites(ci2.cf, !ci2.tlcp) {
+		off = off || x == want
+	}
+	for _, x := range srv2 {
+		sup = sup || x == want
+	}
+	return b01(off && sup)
+}
+
+// helloSuites: the cipher suites of the (first) ClientHello of the flight.
+// body = version(2) random(32) session_id<0..32> [DTLCP: cookie<0..255>] cipher_suites<2..>
+func helloSuites(f flight, dtls bool) []uint16 {
+	m := f.get(1)
+	if m == nil || len(m.body) < 35 {
+		return nil
+	}
+	b := m.body[34:]
+	skip := func() bool {
+		if len(b) < 1 || len(b) < 1+int(b[0]) {
+			return false
+		}
+		b = b[1+int(b[0]):]
+		return true
+	}
+	if !skip() || (dtls && !skip()) || len(b) < 2 {
+		return nil
+	}
+	n := int(b[0])<<8 | int(b[1])
+	b = b[2:]
+	if len(b) < n {
+		return nil
+	}
+	var out []uint16
+	for i := 0; i+1 < n; i += 2 {
+		out = append(out, uint16(b[i])<<8|uint16(b[i+1]))
+	}
+	return out
+}
+
+// histTail: the tokens of a history that relate its two connections
+func histTail(ci1, ci2 *connInfo, sessionSuite string, srv2 []uint16, roots2 *smx509.CertPool, now2 time.Time) string {
+	_, nowToks := judgeCerts(ci1.ders, roots2, now2, ci1.ecdhe)
+	return fmt.Sprintf(" 2.offer=%s 2.mech=%s now0=%s now1=%s", offerTok(ci2.cf), mechTok(ci2, sessionSuite, srv2), nowToks[0], nowToks[1])
 }
 
 func parseScen(desc string) scen {
@@ -538,6 +708,9 @@ func parseScen(desc string) scen {
 	s.pol2, _ = hx.KV(desc, "pol2")
 	s.cfg2, _ = hx.KV(desc, "cfg2")
 	s.cli, _ = hx.KV(desc, "cli")
+	s.suite2, _ = hx.KV(desc, "suite2")
+	s.decl, _ = hx.KV(desc, "decl")
+	s.cli2, _ = hx.KV(desc, "cli2")
 	return s
 }
 
@@ -609,6 +782,10 @@ func scriptPlanOf(cli string) scriptPlan {
 	foreign := func(leaf *pki.Leaf) { pl.certs = [][]byte{leaf.DER, pl.enc.DER} }
 	switch cli {
 	case "s-good":
+	case "s-eku": // ANOTHER identity under the trusted root (serverAuth-only usage: inside the documented set)
+		pl.sig, pl.enc = st.CliEKUSig, st.CliEKUEnc
+	case "s-untrusted": // a pair under an unknown CA, proof of possession in order
+		pl.sig, pl.enc = st.CliOthSig, st.CliOthEnc
 	case "s-nocv":
 		pl.sendCV = -1
 	case "s-untrusted-nocv":
@@ -725,21 +902,21 @@ func generate(o hx.Opts) []scen {
 	if want("hist") {
 		for _, st := range stacks {
 			out = append(out,
-				scen{st, "hist", "e013", "NoClientCert", "RequireAndVerifyClientCert", "same", "none"},
-				scen{st, "hist", "e013", "RequireAnyClientCert", "RequireAndVerifyClientCert", "same", "untrusted"},
-				scen{st, "hist", "e013", "RequireAndVerifyClientCert", "RequireAndVerifyClientCert", "otherca", "trusted"})
+				mkScen(st, "hist", "e013", "NoClientCert", "RequireAndVerifyClientCert", "same", "none"),
+				mkScen(st, "hist", "e013", "RequireAnyClientCert", "RequireAndVerifyClientCert", "same", "untrusted"),
+				mkScen(st, "hist", "e013", "RequireAndVerifyClientCert", "RequireAndVerifyClientCert", "otherca", "trusted"))
 		}
 	}
 	if want("full") {
 		for _, st := range stacks {
-			out = append(out, scen{st, "full", "e013", "RequireAndVerifyClientCert", "", "", "eku"})
+			out = append(out, mkScen(st, "full", "e013", "RequireAndVerifyClientCert", "", "", "eku"))
 			for _, su := range suites {
 				for _, pol := range policies {
 					for _, cli := range realClients {
 						if isECDHE(su) && (cli == "none" || cli == "sigonly") {
 							continue // a real client without two certificates does not offer ECDHE
 						}
-						out = append(out, scen{st, "full", su, pol, "", "", cli})
+						out = append(out, mkScen(st, "full", su, pol, "", "", cli))
 					}
 				}
 			}
@@ -753,7 +930,7 @@ func generate(o hx.Opts) []scen {
 			for _, su := range suites {
 				for _, pol := range policies {
 					for _, cli := range scriptClients {
-						out = append(out, scen{st, "script", su, pol, "", "", cli})
+						out = append(out, mkScen(st, "script", su, pol, "", "", cli))
 					}
 				}
 			}
@@ -773,7 +950,7 @@ func generate(o hx.Opts) []scen {
 							if isECDHE(su) && (cli == "none" || cli == "sigonly") {
 								continue
 							}
-							out = append(out, scen{st, "hist", su, p1, p2, "same", cli})
+							out = append(out, mkScen(st, "hist", su, p1, p2, "same", cli))
 						}
 					}
 				}
@@ -781,7 +958,7 @@ func generate(o hx.Opts) []scen {
 				for _, c2 := range []string{"otherca", "later"} {
 					for _, p1 := range []string{"RequestClientCert", "RequireAnyClientCert", "RequireAndVerifyClientCert"} {
 						for _, p2 := range policies {
-							out = append(out, scen{st, "hist", su, p1, p2, c2, "trusted"})
+							out = append(out, mkScen(st, "hist", su, p1, p2, c2, "trusted"))
 						}
 					}
 				}
@@ -797,12 +974,12 @@ func generate(o hx.Opts) []scen {
 				continue
 			}
 			// the plain attack first: somebody else's trusted certificate, CertificateVerify by another key
-			out = append(out, scen{st, "shist", "e013", "RequireAndVerifyClientCert", "RequireAndVerifyClientCert", "same", "s-cvotherkey"})
+			out = append(out, mkScen(st, "shist", "e013", "RequireAndVerifyClientCert", "RequireAndVerifyClientCert", "same", "s-cvotherkey"))
 			for _, su := range suites {
 				for _, p1 := range policies {
 					for _, p2 := range policies {
 						for _, cli := range scriptClients {
-							out = append(out, scen{st, "shist", su, p1, p2, "same", cli})
+							out = append(out, mkScen(st, "shist", su, p1, p2, "same", cli))
 						}
 					}
 				}
@@ -810,8 +987,55 @@ func generate(o hx.Opts) []scen {
 				for _, c2 := range []string{"otherca", "later"} {
 					for _, p1 := range []string{"RequireAnyClientCert", "RequireAndVerifyClientCert"} {
 						for _, cli := range scriptClients {
-							out = append(out, scen{st, "shist", su, p1, "RequireAndVerifyClientCert", c2, cli})
+							out = append(out, mkScen(st, "shist", su, p1, "RequireAndVerifyClientCert", c2, cli))
 						}
+					}
+				}
+			}
+		}
+	}
+	// DECLINED resumptions: the second ClientHello offers the session id the first connection
+	// announced, but the session cannot be resumed for a reason that has nothing to do with client
+	// authentication — its suite is no longer offered by the client (decl=cli) or no longer
+	// supported by the server (decl=srv) — so a full handshake follows on the same connection object,
+	// in which ANOTHER scripted client presents nothing (empty list / no Certificate message), the
+	// same certificate, a different trusted one, an untrusted one, or a certificate without proof
+	// of possession. Whatever checkForResumption looked at, the connection must report what THIS
+	// client presented.
+	if want("decl") {
+		type sp struct{ s1, s2, decl string }
+		pairs := []sp{{"e053", "e013", "cli"}, {"e053", "e013", "srv"}, {"e051", "e013", "cli"}, {"e013", "e051", "cli"}}
+		if thorough {
+			pairs = append(pairs, sp{"e013", "e053", "cli"}, sp{"e013", "e053", "srv"}, sp{"e051", "e053", "srv"},
+				sp{"e011", "e051", "cli"}, sp{"e013", "e011", "srv"})
+		}
+		firsts := []string{"s-good", "s-eku", "s-empty", "s-untrusted"}
+		seconds := []string{"s-empty", "s-nomsg", "s-good", "s-eku", "s-untrusted", "s-nocv"}
+		for _, st := range stacks {
+			if st == "dtlcp" && !dtlcpScriptAvailable {
+				continue
+			}
+			// the plain case first: a certificate holder's session, then somebody without a certificate
+			out = append(out, scen{stack: st, kind: "shist", suite: "e053", pol: "VerifyClientCertIfGiven", pol2: "VerifyClientCertIfGiven",
+				cfg2: "same", cli: "s-good", suite2: "e013", decl: "cli", cli2: "s-empty"})
+			for _, pr := range pairs {
+				for _, p1 := range policies {
+					for _, p2 := range policies {
+						for _, c1 := range firsts {
+							for _, c2 := range seconds {
+								out = append(out, scen{stack: st, kind: "shist", suite: pr.s1, pol: p1, pol2: p2, cfg2: "same",
+									cli: c1, suite2: pr.s2, decl: pr.decl, cli2: c2})
+							}
+						}
+					}
+				}
+			}
+			// … and under a second configuration in which the session's certificates no longer verify
+			for _, c2 := range []string{"otherca", "later"} {
+				for _, p2 := range []string{"VerifyClientCertIfGiven", "RequireAndVerifyClientCert"} {
+					for _, cl2 := range seconds {
+						out = append(out, scen{stack: st, kind: "shist", suite: "e053", pol: "RequireAndVerifyClientCert", pol2: p2, cfg2: c2,
+							cli: "s-good", suite2: "e013", decl: "cli", cli2: cl2})
 					}
 				}
 			}
